@@ -121,12 +121,36 @@ def ks_stub(ip, trace):
 
 
 def vmap_model(ip, f, in_axes=0, out_axes=0):
-    """A-VMAP: vmap(f)(xs)[c] = f(xs[c]) - the mapped function is called once, on the per-chain view of its arguments"""
-    return PyFn(lambda ip_, *a: ip_.call(f, list(a), {}), "vmapped")
+    """A-VMAP: vmap(f)(xs)[c] = f(xs[c]) - the mapped function is called once, on the per-chain view of its arguments; an argument with
+    in_axes None is NOT a per-chain view: every chain receives the same object (marked, so that it never equals a per-chain view)"""
+    def run(ip_, *a):
+        a = list(a)
+        mark = lambda x: ip_.uf("same_object_for_all_chains", x) if is_z3(x) and x.sort() == U else x  # noqa: E731  (python objects - epoch states, configs - are shared as they are)
+        if isinstance(in_axes, (tuple, list)):
+            a = [mark(x) if i < len(in_axes) and in_axes[i] is None else x for i, x in enumerate(a)]
+        elif in_axes is None:
+            a = [mark(x) for x in a]
+        return ip_.call(f, a, {})
+    return PyFn(run, "vmapped")
+
+
+def tree_map_model(ip, f, tree, *rest):
+    """A-PYTREE: tree_map applies f leaf by leaf through dicts / lists / tuples; an opaque array-valued term is one leaf"""
+    if isinstance(tree, dict):
+        return {k: tree_map_model(ip, f, v, *[r[k] for r in rest]) for k, v in tree.items()}
+    if isinstance(tree, (list, tuple)):
+        out = [tree_map_model(ip, f, v, *[r[i] for r in rest]) for i, v in enumerate(tree)]
+        return out if isinstance(tree, list) else tuple(out)
+    if tree is None:
+        return None
+    return ip.call(f, [tree, *rest], {})
 
 
 def install_engine_models(ip):
     ip.models["jax.vmap"] = vmap_model
+    ip.models.setdefault("jax.tree_util.tree_map", tree_map_model)
+    ip.models.setdefault("jax.tree.map", tree_map_model)
+    ip.models.setdefault("getitem", lambda ip_, v, idx: ip_.uf("getitem", ip_.to_U(v), ip_.to_z3_any(idx)) if is_z3(v) and v.sort() == U and (isinstance(idx, int) or is_z3(idx)) else (_ for _ in ()).throw(Unsupported(f"getitem({v!r}, {idx!r})")))
     ip.models["tqdm.tqdm"] = lambda ip_, it, **k: it
     ip.summaries["liesel/goose/pytree.py::as_strong_pytree"] = lambda ip_, args, kwargs: args[0]
     ip.summaries[f"{ENG}::_add_time_dimension"] = lambda ip_, args, kwargs: ip_.uf("add_time_dim", ip_.to_U(kwargs.get("x", args[0] if args else None)))
@@ -595,7 +619,8 @@ def engine_init_unit(uid, prop):
                 ks[0].attrs["needs_history"], ks[1].attrs["needs_history"] = h0, h1
                 seq = ip.call(ip.repo(f"{KS}::KernelSequence"), [list(ks)], {})
                 eng = ip.call(ip.repo(E), [], dict(seeds=z3.Const("seeds", U), model_states=z3.Const("model_states", U), kernel_sequence=seq, epoch_configs=cfgs,
-                                                   jitted_sample_duration=c.fresh("chunk", Int), model=PyObj("model"), position_keys=given, store_kernel_states=c.fresh("store", Bool)))
+                                                   jitted_sample_duration=c.fresh("chunk", Int), model=PyObj("model"), position_keys=given, store_kernel_states=c.fresh("store", Bool),
+                                                   minimize_transition_infos=c.fresh("minimize_infos", Bool)))  # both options arbitrary: the storage layout must not depend on them
                 tag = f".h{int(h0)}{int(h1)}." + ("default" if given is None else "given" if given else "empty")
                 if given is None:
                     c.oblige("history_requested_iff_some_kernel_needs_it" + tag[:4], ip.truth(eng.f["_history_required_for_tuning"]) is (h0 or h1))
